@@ -1,13 +1,14 @@
 /-
 C05 — No input makes the library panic, overflow or hang; errors are faithful.
-Every Rust panic site of the modelled code is an explicit `Outcome.panic` (text layer) or an
-explicit unreachable branch (array classification); the theorems below discharge the ones proved so
-far. The remaining sites (slices of `source` at CST spans) are covered by the correspondence check,
-which compares `panic` outcomes with the real code, and by the byte-wise range oracle.
+Every Rust panic site of the modelled code is an explicit `Outcome.panic` (text layer: every slice of
+`source`, the `key_span.start + 1 .. end - 1` arithmetic) or an explicit unreachable branch (array
+classification). `fromStr_total` discharges all of them for every string; `span_faithful` says what
+an `InvalidJson` error carries. Real stack depth and wall-clock are observed, not proved.
 -/
 import ShapeVerif.Lemmas.InferSpec
 import ShapeVerif.Model.ParseCst
 import ShapeVerif.Props.C12
+import ShapeVerif.Lemmas.FromStrTotal
 namespace ShapeVerif
 open Shape
 
@@ -67,5 +68,81 @@ a subset query at most size·size (restated from C12 as the "small polynomial" p
 theorem work_bounds (v d : Doc) (a b : Shape) :
     ticksSVal v = v.nodes ∧ ticksInferDoc d ≤ d.nodes ∧ (subsetT a b).2 ≤ a.size * b.size :=
   ⟨inferSVal_cost v, inferDoc_cost d, subset_cost a b⟩
+
+/-- **no string makes `from_str` panic**: all slices of the source taken by `parse_cst`
+(`has_errors`, error values, member names) lie on character boundaries inside the text, and member
+name tokens span at least their two quotes -/
+theorem fromStr_total (t : List Char) : fromStr t ≠ .panic := (fromStr_good t).1
+
+/-- **errors are faithful**: the range of an `InvalidJson` lies inside the input on character
+boundaries and the reported fragment is exactly the input at that range -/
+theorem span_faithful (t : List Char) (v : String) (a b : Nat) (h : fromStr t = .err (.invalidJson v a b)) :
+    ∃ p s, t = p ++ v.toList ++ s ∧ utf8Len p = a ∧ a + utf8Len v.toList = b :=
+  sliceBytes_spec ((fromStr_good t).2 v a b h)
+
+theorem fromSources_go_good : ∀ (srcs : List (List Char)) (acc : List Shape),
+    fromSources.go srcs acc ≠ .panic ∧
+      ∀ v a b, fromSources.go srcs acc = .err (.invalidJson v a b) → ∃ t ∈ srcs, fromStr t = .err (.invalidJson v a b)
+  | [], acc => by simp [fromSources.go]
+  | t :: rest, acc => by
+    have ht := fromStr_total t
+    simp only [fromSources.go]
+    cases hf : fromStr t with
+    | panic => exact absurd hf ht
+    | err e =>
+      refine ⟨by simp, ?_⟩
+      intro v a b h
+      cases h
+      exact ⟨t, by simp, hf⟩
+    | ok s =>
+      have ih := fromSources_go_good rest (s :: acc)
+      refine ⟨ih.1, ?_⟩
+      intro v a b h
+      obtain ⟨t', h1, h2⟩ := ih.2 v a b h
+      exact ⟨t', by simp [h1], h2⟩
+
+/-- `from_sources`, `is_superset`, `is_superset_checked` never panic either, on any texts -/
+theorem entry_points_total (srcs : List (List Char)) (s : Shape) (t : List Char) :
+    fromSources srcs ≠ .panic ∧ isSuperset s t ≠ .panic ∧ isSupersetChecked s t ≠ .panic := by
+  refine ⟨?_, ?_, ?_⟩
+  · unfold fromSources
+    have := (fromSources_go_good srcs []).1
+    cases h : fromSources.go srcs [] with
+    | panic => exact absurd h this
+    | err e => simp
+    | ok vs => simp only; split <;> simp
+  · unfold isSuperset
+    have := fromStr_total t
+    cases h : fromStr t with
+    | panic => exact absurd h this
+    | err e => simp
+    | ok v => simp
+  · unfold isSupersetChecked
+    have := fromStr_total t
+    cases h : fromStr t with
+    | panic => exact absurd h this
+    | err e => simp
+    | ok v => simp
+
+/-- an `InvalidJson` from `from_sources` is the faithful error of one of the sources -/
+theorem sources_span_faithful (srcs : List (List Char)) (v : String) (a b : Nat)
+    (h : fromSources srcs = .err (.invalidJson v a b)) :
+    ∃ t ∈ srcs, ∃ p s, t = p ++ v.toList ++ s ∧ utf8Len p = a ∧ a + utf8Len v.toList = b := by
+  unfold fromSources at h
+  cases hg : fromSources.go srcs [] with
+  | panic => simp [hg] at h
+  | err e =>
+    simp only [hg] at h
+    cases h
+    obtain ⟨t, ht, hf⟩ := (fromSources_go_good srcs []).2 v a b hg
+    exact ⟨t, ht, span_faithful t v a b hf⟩
+  | ok vs =>
+    simp only [hg] at h
+    split at h <;> cases h
+
+/- non-vacuity of `span_faithful`'s hypothesis: `sliceBytes` is defined by well-founded recursion and
+does not reduce in the kernel, so no closed `example` is given here; the correspondence run of every
+check evaluates `fromStr` on tens of thousands of rejected texts (e.g. `"\\é"` ↦ `InvalidJson "\\é" 1..4`)
+and compares value and range with the real code. -/
 
 end ShapeVerif
